@@ -9,7 +9,7 @@ TRUSTED_BASE = [
     "modelled-not-verified: mongo-driver/bson codec, shopspring/decimal, tidwall/btree, Go sort/map/append, sync/channels/tomb, kernel file system (DESIGN §6)",
 ]
 
-PENDING = {
+PROPS = {
     "C12": {
         "props_modules": ["Lungo.Props.C12"],
         "audit_files": ["Lungo/Audit/C12.lean"],
@@ -19,9 +19,6 @@ PENDING = {
         "trusted": ["Go float comparison/conversion semantics as stated in Model/Compare.lean", "decimal.Decimal.Cmp exact"],
         "assumptions": ["strings are valid UTF-8 (byte-wise order = code-point order)"],
     },
-}
-
-PROPS = {
     "C10": {
         "props_modules": ["Lungo.Props.C10"],
         "audit_files": ["Lungo/Audit/C10.lean"],
